@@ -58,8 +58,19 @@ def ownerTable : List (List String) → Nat → List (String × Nat) → Except 
 def ownerOf (table : List (String × Nat)) (i : String) : Option Nat :=
   (table.find? fun (j, _) => j == i).map (·.2)
 
+/-- `getattr(dataset, ids_name)` for every dataset, in order -/
+def idsOf : List DS → Except Err (List (List String))
+  | [] => .ok []
+  | p :: ps =>
+    match p.ids with
+    | .error e => .error e
+    | .ok ids =>
+      match idsOf ps with
+      | .error e => .error e
+      | .ok rest => .ok (ids :: rest)
+
 def mergeDS (parts : List DS) : Except Err DS := do
-  let idLists ← parts.mapM (·.ids)
+  let idLists ← idsOf parts
   let table ← ownerTable idLists 0 []
   let common := match parts with
     | [] => []
@@ -156,7 +167,7 @@ def groupByDS (keyOf : String → Except Err String) (d : DS) : Except Err DS :=
 /-! ### Join -/
 
 inductive JoinMode where | inner | left | right | outer
-  deriving Repr, BEq, DecidableEq, Inhabited
+  deriving Repr, DecidableEq, Inhabited
 
 /-- `_maybe_to_hash_id` on the tuple of key-field values -/
 def joinKey (values : List Val) : Except Err String :=
